@@ -233,3 +233,22 @@ def find_values(v, pred):
 
 def unbyref(v):
     return v[1] if v and v[0] == "byref" else v
+
+
+def relation(f):
+    """normalise a branch fact on a comparison call to (rel, a, b), rel in  <  <=  ==  !=
+    (a rel b holds on that edge); None if the fact is not such a comparison"""
+    if f[0] not in ("true", "false") or not isinstance(f[1], tuple) or f[1][0] != "call" or len(f[1][2]) != 2:
+        return None
+    name = f[1][1].rsplit("::", 1)[-1]
+    a, b = unbyref(f[1][2][0]), unbyref(f[1][2][1])
+    t = f[0] == "true"
+    table = {
+        ("lt", True): ("<", a, b), ("lt", False): ("<=", b, a),
+        ("le", True): ("<=", a, b), ("le", False): ("<", b, a),
+        ("gt", True): ("<", b, a), ("gt", False): ("<=", a, b),
+        ("ge", True): ("<=", b, a), ("ge", False): ("<", a, b),
+        ("eq", True): ("==", a, b), ("eq", False): ("!=", a, b),
+        ("ne", True): ("!=", a, b), ("ne", False): ("==", a, b),
+    }
+    return table.get((name, t))
